@@ -1,6 +1,8 @@
 #!/bin/bash
-# all quick checks under seeds 2..21
-for s in $(seq 2 21); do
+# tools/seeds.sh [from] [to] : all quick checks under a range of VERIF_SEED values (default 2..21);
+# prints "SEED <n> <check> exit=<code>" for anything that is not exit 0
+from=${1:-2}; to=${2:-21}
+for s in $(seq $from $to); do
   for p in C01 C02 C03 C04 C05 C06 C07 C08 C09 C10 C11 C13; do
     out=$(VERIF_SEED=$s ./check $p 2>&1); rc=$?
     if [ $rc -ne 0 ]; then echo "SEED $s $p exit=$rc"; echo "$out" | grep -v "^NOTE\|KNOWN-F" | tail -4; fi
